@@ -293,6 +293,39 @@ def o93(ctx):
         ctx.finding(q, "result", "survivors must not be altered", fn, m)
 
 
+def _mask_removal(ev):
+    """how clean_by_tomo_mask takes the hits out of the whole list -> dict(form, field, values, restricted, node) or None
+       form 'remove_feature': <list>.remove_feature(field, values)      (over the whole list)
+       form 'filter':         <list>.df = <list>.df[~(<restriction> & <list>.df[field].isin(values))]"""
+    rf = [e for e in ev if e.kind == "call" and e.name.endswith("Motl.remove_feature")]
+    if len(rf) == 1:
+        f_ = pyval(rf[0].args[0]) if is_pyconst(rf[0].args[0]) else None
+        return {"form": "remove_feature", "field": f_, "values": no_sel(to_term(rf[0].args[1])), "restricted": None, "node": rf[0].node}
+    if rf:
+        return None
+    fl = [e for e in ev if e.kind == "filter" and len(e.args) > 1 and tm.has_call(to_term(e.args[1]), "isin")]
+    if len(fl) != 1:
+        return None
+    mk_ = to_term(fl[0].args[1])
+    if mk_.op != "not":
+        return None
+    conj = []
+
+    def flat(t_):
+        if t_.op == "and":
+            for a_ in t_.args:
+                flat(a_)
+        else:
+            conj.append(t_)
+
+    flat(mk_.args[0])
+    isins = [c_ for c_ in conj if c_.op == "call" and c_.args[0] == "isin"]
+    if len(isins) != 1 or isins[0].args[1].op != "sym":
+        return None
+    rest = [c_ for c_ in conj if c_ is not isins[0]]
+    return {"form": "filter", "field": str(isins[0].args[1].args[0]), "values": no_sel(isins[0].args[2]), "restricted": rest, "node": fl[0].node}
+
+
 def o94(ctx):
     q = M + "clean_by_tomo_mask"
     m, fn = ctx.prog.func(q)
@@ -389,16 +422,16 @@ def o94(ctx):
     zt = to_term(getattr(pos, "indexed_by", None) or pos)
     if not tm.contains(zt, lambda n: n.op == "eq" and tm.cval(n.args[1]) in (0, 0.0) and tm.has_call(n.args[0], "binarize")):
         ctx.finding(q, takes[0].node, "exactly the particles sitting on zero-valued mask voxels must be removed (mask value == 0)", takes[0].node, m)
-    rf = [e for e in ev if e.kind == "call" and e.name.endswith("Motl.remove_feature")]
-    ctx.count(1)
-    if len(rf) != 1:
-        # the hits leave the list in another way (row labels, a keep mask, a restricted selection): which rows that removes is not read off here
-        raise Unsupported("clean_by_tomo_mask: how the particles on zero voxels are taken out of the list is not recognised (no single remove_feature call)", fn)
+    rm = _mask_removal(ev)
+    ctx.count(1, {"removal form": rm and rm["form"], "field": rm and rm["field"]})
+    if rm is None:
+        # the hits leave the list in another way (row labels, a keep array, ...): which rows that removes is not read off here
+        raise Unsupported("clean_by_tomo_mask: how the particles on zero voxels are taken out of the list is not recognised (neither one remove_feature call "
+                          "nor one row filter of the form ~(<restriction> & <field>.isin(<values>)))", fn)
     # the field the rows are removed by and the values handed over belong together: the subset's own values of that field
-    f_ = pyval(rf[0].args[0]) if is_pyconst(rf[0].args[0]) else None
-    if f_ is None or no_sel(to_term(rf[0].args[1])) != sym(f_):
-        ctx.finding(q, rf[0].node, "the particles must be removed by the values the hits carry in the very field the removal selects on "
-                    f"(field {f_!r}, values {tm.show(no_sel(to_term(rf[0].args[1])))[:60]})", rf[0].node, m)
+    if rm["field"] is None or rm["values"] != sym(rm["field"]):
+        ctx.finding(q, rm["node"], "the particles must be removed by the values the hits carry in the very field the removal selects on "
+                    f"(field {rm['field']!r}, values {tm.show(rm['values'])[:60]})", rm["node"], m)
     subs = [e for e in ev if e.kind == "call" and e.name.endswith("Motl.get_motl_subset")]
     ctx.count(1)
     if not subs or t_el is None or to_term(subs[0].args[0]) != t_el:
@@ -425,24 +458,25 @@ def o911(ctx):
     me = motl_obj(ctx.prog)
     it.run(q, [P("tomo_list"), Unk(sym("tomo_masks"))], {}, self_obj=me)
     ev = [e for e in it.events if e.fn == q]
-    rf = [e for e in ev if e.kind == "call" and e.name.endswith("Motl.remove_feature")]
-    subs = [e for e in ev if e.kind == "call" and e.name.endswith("Motl.get_motl_subset")]
-    if len(rf) != 1 or not subs:
-        raise Unsupported("clean_by_tomo_mask: removal of the hits from the list not recognised (no single remove_feature call on the list)", fn)
-    recv = rf[0].extra.get("self") if isinstance(rf[0].extra, dict) else None
-    f_ = pyval(rf[0].args[0]) if is_pyconst(rf[0].args[0]) else None
-    vals = to_term(rf[0].args[1])
-    # the values come from the per-tomogram subset (a selection by the tomogram), the receiver is the whole list
-    from_subset = tm.contains(vals, lambda n: n.op == "sel") or getattr(rf[0].args[1], "space", None) is not None
-    ctx.count(1, {"removal": f"remove_feature({f_!r}, {tm.show(vals)[:80]})", "values from the tomogram's subset": bool(from_subset)})
-    if f_ is None:
-        raise Unsupported("clean_by_tomo_mask: the field the hits are removed by is not a literal", rf[0].node)
-    if f_ != "tomo_id":
+    rm = _mask_removal(ev)
+    loops = [e for e in ev if e.kind == "loop"]
+    if rm is None or rm["field"] is None or len(loops) != 1:
+        raise Unsupported("clean_by_tomo_mask: removal of the hits from the list not recognised (neither one remove_feature call nor one row filter "
+                          "~(<restriction> & <field>.isin(<values>)))", fn)
+    it_t = to_term(loops[0].args[0])
+    seq_t = it_t.args[1] if it_t.op == "call" and it_t.args[0] == "enumerate" else it_t
+    t_el = call("each", seq_t)
+    f_ = rm["field"]
+    restricted = bool(rm["restricted"]) and any(c_.op == "eq" and c_.args[0] == sym("tomo_id") and c_.args[1] == t_el for c_ in rm["restricted"])
+    ctx.count(1, {"removal": f"{rm['form']}: field {f_!r}, values {tm.show(rm['values'])[:60]}", "restricted to the tomogram of the mask": restricted})
+    if rm["form"] == "filter" and rm["restricted"] and not restricted:
+        raise Unsupported("clean_by_tomo_mask: the row filter carries a restriction that is not `tomo_id == <tomogram of this iteration>`: not decided", rm["node"])
+    if f_ != "tomo_id" and not restricted:
         ctx.finding(q, "removal by one field over the whole list",
-                    f"the particles on zero voxels of tomogram t are removed with remove_feature({f_!r}, <their {f_} values>) on the WHOLE list: every particle of "
+                    f"the particles on zero voxels of tomogram t are removed from the WHOLE list by their {f_} values alone: every particle of "
                     f"another tomogram that carries one of these {f_} values is removed as well (numbers that restart in every tomogram are common in lists "
                     "concatenated from per-tomogram picking); the property keeps all particles that do not sit on a zero voxel of their own tomogram's mask",
-                    rf[0].node, m)
+                    rm["node"], m)
 
 
 def o96(ctx):
